@@ -10,8 +10,6 @@ package lake
 
 import (
 	"context"
-	"io"
-	"github.com/brimdata/super/pkg/storage"
 
 	"github.com/brimdata/super/internal/verif"
 	"github.com/segmentio/ksuid"
@@ -66,8 +64,7 @@ func VerifH_C12_O7_branch_readable_at_every_moment() {
 		hist = 0
 	}
 	s := vSetupLake(ctx, eng, hist, 0)
-	tr := &v12eTrace{vEngine: eng}
-	ha, err := v12eOpenOn(ctx, tr, 1)
+	ha, err := vOpenClient(ctx, eng, 1)
 	verif.Assert(err == nil, "open-a")
 	if err != nil {
 		return
@@ -118,9 +115,9 @@ func VerifH_C12_O7_branch_readable_at_every_moment() {
 		injected = true
 	}
 	eng.crashAt = 0
-	verif.Observe("calls", calls)
-	verif.Observe("trace", tr.t)
-	verif.Observe("read-at", readAt)
+	// (the number of storage calls before the reader is not an observable: commits.Store.Snapshot
+	// fetches the commit object in a goroutine, which the engine runs at its spawn point)
+	_ = readAt
 	verif.Observe("outcomeA", vOutcomeOf(a))
 	verif.Observe("injected", injected)
 	if !injected {
@@ -162,45 +159,4 @@ func VerifH_C12_O7_branch_readable_at_every_moment() {
 		verif.Reach("operation-tolerated-the-failure")
 	}
 	verif.Reach("end")
-}
-
-type v12eTrace struct {
-	*vEngine
-	t string
-}
-
-func (e *v12eTrace) Get(ctx context.Context, u *storage.URI) (storage.Reader, error) {
-	e.t += " get:" + vBase(u)
-	return e.vEngine.Get(ctx, u)
-}
-func (e *v12eTrace) Put(ctx context.Context, u *storage.URI) (io.WriteCloser, error) {
-	e.t += " put:" + vBase(u)
-	return e.vEngine.Put(ctx, u)
-}
-func (e *v12eTrace) PutIfNotExists(ctx context.Context, u *storage.URI, b []byte) error {
-	e.t += " putx:" + vBase(u)
-	return e.vEngine.PutIfNotExists(ctx, u, b)
-}
-func (e *v12eTrace) Delete(ctx context.Context, u *storage.URI) error {
-	e.t += " del:" + vBase(u)
-	return e.vEngine.Delete(ctx, u)
-}
-func (e *v12eTrace) Exists(ctx context.Context, u *storage.URI) (bool, error) {
-	e.t += " exists:" + vBase(u)
-	return e.vEngine.Exists(ctx, u)
-}
-func v12eOpenOn(ctx context.Context, eng storage.Engine, id int) (*vHandle, error) {
-	root, err := Open(ctx, eng, nil, vLakePath())
-	if err != nil {
-		return nil, err
-	}
-	pool, err := vOpenPoolByName(ctx, root, vPoolName)
-	if err != nil {
-		return nil, err
-	}
-	branch, err := pool.OpenBranchByName(ctx, "main")
-	if err != nil {
-		return nil, err
-	}
-	return &vHandle{id: id, root: root, pool: pool, branch: branch}, nil
 }
